@@ -24,8 +24,7 @@ ALLOWED_AXIOMS = []
 LABEL = ('full on the model (non-interference for all states, all event lists, all interleavings, all '
          'failure subsets); the model starts at the h2-event boundary: coupling through HTTP/2 itself '
          '(shared connection window, HPACK state) is exercised by the runs only')
-TRUSTED = ['modelled, not verified: hyper-h2 (which events it emits; at most one StreamReset per stream, '
-           'checked on every recorded trace), asyncio task/Event semantics below the wrapper '
+TRUSTED = ['modelled, not verified: hyper-h2 (which events it emits), asyncio task/Event semantics below the wrapper '
            'error slot; the recorder harness/c11_util.py reads grpclib attributes from outside '
            '(processor.streams, Stream.headers/trailers/buffer._unacked/events, wrapper._error, '
            'Handler._tasks)']
@@ -1018,7 +1017,7 @@ def check_scenario(ctx, res, scn, pending):
     for r in recs:
         rst = [t[1] for t in r.tokens if t[0] == 'RST']
         if len(rst) != len(set(rst)):
-            fail('h2 delivered two StreamReset events for one stream (assumed impossible)', 'double-reset', rst)
+            res.count('%s:two StreamResets for one stream' % end)     # tolerated by the code now
         if r.raised:
             fail('exception left data_received: %s' % r.escaped, 'escaped', r.escaped, strikes=kinds)
     if mux.get('violations'):
